@@ -452,8 +452,21 @@ fn seqdiff(a: &Args) -> i32 {
         let property = ["C07", "C12", "C06", "C19"][(i % 4) as usize];
         let (script, _) = generate(property, seed, i, false);
         let AnyScript::Nucleo(n) = script else { continue };
-        let seq = world_nucleo::sequentialise(&n);
+        let mut seq = world_nucleo::sequentialise(&n);
+        world_nucleo::LAST_KILLERS.lock().unwrap().clear();
         let o = exec::run_one(Rc::new(seq.clone()), None);
+        // the native half has no adversary: hand it the killer batch this run computed as an explicit one
+        let mut killers = std::mem::take(&mut *world_nucleo::LAST_KILLERS.lock().unwrap()).into_iter();
+        let cols = seq.columns as usize;
+        for w in seq.writers.iter_mut() {
+            for op in w.iter_mut() {
+                if let world_nucleo::WOp::ExtendKiller { .. } = op {
+                    let Some(ranks) = killers.next() else { continue };
+                    *op = world_nucleo::WOp::Extend { items: world_nucleo::killer_texts(&ranks, cols), lie: world_nucleo::Lie::Honest, panic_at: None };
+                }
+            }
+        }
+        seq.writers.iter_mut().for_each(|w| w.retain(|op| !matches!(op, world_nucleo::WOp::ExtendKiller { .. })));
         if let Some(v) = o.violations.first() {
             println!("seqdiff: simulated sequential run {i} violates {} {}: {}", v.property, v.class, v.message);
             return 1;
